@@ -42,7 +42,7 @@ PROPS = {
         'level_note': 'The per-side monitors of C03, C07 and C13 also run on both sides of every two-party case; the joint monitor ties the two-party model to the crate.',
     },
     'C07': {
-        'modules': ['C07', 'TieWrite', 'TieRead', 'TieRun', 'TieCodec'],
+        'modules': ['C07', 'TieWrite', 'TieRead', 'TieRun', 'TieCodec', 'TieConfig'],
         'families': [('corpus:', 0, 0), ('ep:tinybuf', 600, 15000), ('ep:hostile', 2500, 80000), ('ep:mixed', 500, 20000), ('ep:limits', 300, 10000),
                      ('hs:server', 1200, 40000), ('hs:client', 1200, 40000), ('tp', 150, 4000), ('ep:cfglive', 400, 8000)],
         'rule': 'random, mutated-valid and boundary-crafted byte streams x per-call transport outcomes {n bytes, 0, WouldBlock, Interrupted, reset, '
@@ -107,7 +107,7 @@ PROPS = {
                       '(C05_unlimited_needs_size_bound) and replaced by effective limits / a size hypothesis.',
     },
     'C05': {
-        'modules': ['C05', 'TieWrite', 'TieRead', 'TieRun', 'TieCodec'],
+        'modules': ['C05', 'TieWrite', 'TieRead', 'TieRun', 'TieCodec', 'TieConfig'],
         'families': [('fs', 500, 15000), ('ep:codec', 2500, 80000), ('ep:sizes', 300, 5000), ('ep:pipe', 150, 3000), ('ep:cfglive', 400, 8000)],
         'rule': 'inbound streams under many segmentations (1-byte, small, large chunks, WouldBlock between segments), every (pre-read, rest) split '
                 'the generator picks, six read-buffer sizes; each case compared with the one-shot decoder of the whole stream',
@@ -122,7 +122,7 @@ PROPS = {
                       'covers every such chunking.',
     },
     'C15': {
-        'modules': ['C15', 'TieHs'],
+        'modules': ['C15', 'C15Headers', 'TieHs'],
         'families': [('corpus:hs', 0, 0), ('hs:cuts', 1, 1), ('hs:server', 2500, 60000)],
         'rule': 'request heads from a grammar: every subset / order / casing of the required headers, near-miss values, duplicates, extra headers up to '
                 'and past the limit, key shapes, methods, versions, bare-LF line ends, byte mutations, trailing bytes, endless heads; every transport '
@@ -190,7 +190,7 @@ PROPS = {
                       'evaluates the seven sub-claims on every implementation trace.',
     },
     'C10': {
-        'modules': ['C10', 'TieWrite', 'TieRead', 'TieRun', 'TieCodec', 'TieExamples'],
+        'modules': ['C10', 'TieWrite', 'TieRead', 'TieRun', 'TieCodec', 'TieExamples', 'CfgLive'],
         'families': [('fs', 500, 15000), ('ep:slotrace', 1, 1), ('corpus:defects', 0, 0), ('ep:backpressure', 2000, 60000), ('ep:sizes', 300, 5000), ('ep:mixed', 500, 20000)],
         'rule': 'message sequences x per-call transport write outcomes (accept k of n for many k, WouldBlock, repeated) x flush outcomes '
                 'x write_buffer_size',
@@ -203,7 +203,7 @@ PROPS = {
         'level_note': 'Unbounded histories by induction; tie to code by correspondence (wire bytes compared byte for byte, masks fixed by the hook).',
     },
     'C06': {
-        'modules': ['C06', 'C06Global', 'TieWrite', 'TieRead', 'TieRun', 'TieCodec', 'TieColl'],
+        'modules': ['C06', 'C06Global', 'TieWrite', 'TieRead', 'TieRun', 'TieCodec', 'TieColl', 'TieConfig'],
         'families': [('fs', 800, 20000), ('corpus:limits', 0, 0), ('ep:limits', 1500, 40000), ('ep:codec', 500, 10000), ('ep:cfglive', 400, 8000)],
         'rule': 'frame/fragment size patterns around the configured limits (limit-1, limit, limit+1; limits 0,1,5,10,125,126,300), '
                 'headers announcing up to 2^64-1 bytes with nothing following, every read-buffer size; read-only cases are also '
@@ -235,7 +235,7 @@ PROPS = {
                       'in order: none invented, none reordered), C11_ping_makes_pong_pending, C13_pong_never_dropped.',
     },
     'C12': {
-        'modules': ['C12', 'C12Global', 'TieWrite', 'TieRead', 'TieRun', 'TieFrame'],
+        'modules': ['C12', 'C12Global', 'TieWrite', 'TieRead', 'TieRun', 'TieFrame', 'TieConfig'],
         'families': [('ep:slotrace', 1, 1), ('corpus:defects', 0, 0), ('ep:close', 2000, 60000), ('ep:backpressure', 1500, 40000), ('pure:closecode', 1, 1), ('ep:cfglive', 400, 8000)],
         'rule': 'close frames with every class of status code (all 65536 through the conversion functions), reasons empty..123 bytes, '
                 'arriving in every connection state, with and without a pending pong',
@@ -248,7 +248,7 @@ PROPS = {
         'level_note': '"Exactly one Close reaches the wire" is the CloseLast part of the C03 invariant plus C13; here per-call theorems for every state.',
     },
     'C14': {
-        'modules': ['C14', 'C14Global', 'TieWrite', 'TieCodec', 'TieExamples'],
+        'modules': ['C14', 'C14Global', 'TieWrite', 'TieCodec', 'TieExamples', 'TieConfig', 'CfgLive'],
         'families': [('fs', 500, 15000), ('ep:slotrace', 1, 1), ('corpus:defects', 0, 0), ('ep:backpressure', 2000, 60000), ('ep:tinybuf', 600, 15000), ('ep:wbound', 1, 1), ('ep:mixed', 500, 10000), ('ep:cfglive', 400, 8000)],
         'rule': '(write_buffer_size, max_write_buffer_size) pairs incl. 0 and adjacent values, message size sequences, transport refusal '
                 'windows, ping floods while blocked',
